@@ -341,6 +341,7 @@ func c14(run *ev.Run, tier string) {
 	nparse := ncases(2000, 50000, tier)
 	ntriples := ncases(150, 2000, tier)
 	run.Rule = "part 1: version strings generated from the semver grammar ([v]MAJOR[.MINOR[.PATCH]][-PRE][+META], identifiers incl. hyphens, no leading zeros) x explicit prerelease / metadata fields x both schemas, plus near-misses no lenient reading accepts (4 numeric parts, empty identifiers, non-numeric core, '_' in an identifier): nfpm.WithDefaults output must equal the components the string was assembled from (explicit fields win; fewer than three parts are zero-filled), verbatim under schema 'none' or when not parseable. part 2: (release, prerelease of it, next patch, higher-epoch-lower-version) tuples are BUILT as deb, ipk and rpm; the version strings decoded from the packages are ordered by a harness implementation of the Debian algorithm (cross-checked with dpkg --compare-versions when installed) and a harness port of rpmvercmp + EVR. Also: the version supplied through the environment mapping (with process-only variables next to it), the unset version, numbers up to 2^64-1 and strings beyond 255 bytes, archlinux pkgver composition for every epoch spelling, apk's post-release suffixes, an ipk custom field named Version. non-trivial = string with a prerelease or metadata part (part 1) / tuple with prerelease and a release or metadata suffix (part 2); distinct = the string / tuple"
+	run.Rule += "; version components referring to unset variables through the nfpm binary; name / package / name on one settings object"
 	var parsed, ordered, dpkgRuns int64
 	haveDpkg := have("dpkg")
 	// ---- part 1
